@@ -1593,8 +1593,22 @@ package sio
 //@     requires snap == 1 [C18.nsp.serverside.handlers.snapshot.at.occurrence]
 //@ func (*Namespace).OnServerSideEmit$1
 //@   opt safety off
+//@   requires n != nil && n.debug != nil
+//@   ghost ran int = 0
+//@   ghost unfit int = 0
 //@   callsite (*eventHandlerStore).getAll
 //@     requires false [C18.nsp.serverside.no.late.lookup]
+// ... and EVERY handler of the snapshot is considered for the occurrence: each is either called or skipped because its
+// parameter count does not fit - delivery never stops early.
+//@   callsite Kind skip
+//@   callsite Elem skip
+//@   callsite Log skip
+//@     update unfit = unfit + 1
+//@   callsite (*eventHandler).call skip
+//@     requires len(arg0) == len(values) [C18.nsp.serverside.handler.gets.all.arguments]
+//@     update ran = ran + 1
+//@   loop 0 invariant ran + unfit == rangeindex + 1 && rangelen == len(handlers) [C18.nsp.serverside.inv.every.handler.considered]
+//@   ensures ran + unfit == len(handlers) [C18.nsp.serverside.every.handler.considered]
 
 // C12 / C05: creating a namespace on demand is ATOMIC with looking it up - the store's lock is never released while
 // the decision "this name has no namespace yet" is pending, so two concurrent Of() / CONNECT calls for one new name
